@@ -315,7 +315,9 @@ func runC05(c *sim.Ctx) {
 		if journal != "" {
 			// the journal is read outside the pager: watch the allocator after every operation
 			// (1 GiB for images of at most 32 KiB, 8 GiB for the others)
-			limit := uint64(8 << 30)
+			// plus 256 KiB per byte of image over all operations (measured: the generated parser allocates ~2.4 KB per byte of a deeply nested definition, and each of the ~60 operations parses it again): every operation re-parses the stored
+			// definitions, and a hostile definition can be megabytes long (linear cost)
+			limit := uint64(8<<30) + (256<<10)*uint64(len(img))
 			if sensitive {
 				limit = 1 << 30
 			}
